@@ -9,6 +9,7 @@ from ..rules import wiring
 from ..rules import guards
 from ..rules import dykstra
 from ..rules import numeric_opts
+from ..rules import affine_rules
 
 TECHNIQUE = ('forwarding lint, must-order on the CFG of _finalize_constraints, '
              'sign<->op pairing tables evaluated per configuration, coherent '
@@ -41,6 +42,8 @@ def run(prog, res):
   _conversion(prog, res)
   _bounds_only(prog, res)
   _mirror_results(prog, res)
+  affine_rules.check_pwl_bounds(prog, res)
+  res.floor('L2', 16)
   fn = prog.function(PL + '.project_all_constraints')
   body = [n for n in ast.walk(fn.node) if isinstance(n, ast.FunctionDef)
           and n.name == 'body']
